@@ -1301,6 +1301,15 @@ def index_safe(f, fa, iv, b, args, names):
             lo = ops[0]
         elif name == "RangeFull":
             return True, "full range", d2
+        elif name in ("RangeToInclusive", "RangeInclusive") and len(ops) in (1, 2):
+            # ..=e / s..=e : panics unless e < len (and s <= e + 1); `s <= e` is the sufficient form proved here
+            e_ = ops[-1]
+            ok = iv.prove_lt_terms(e_, lenterm, b)
+            why = [] if ok else ["inclusive end %s < len not proved (end in %s, len in %s)" % (show(e_, names), _ivs(iv.interval(e_, b)), _ivs(iv.interval(lenterm, b)))]
+            if len(ops) == 2 and not iv.prove_le_terms(ops[0], e_, b):
+                ok = False
+                why.append("start %s <= inclusive end not proved" % show(ops[0], names))
+            return ok, "; ".join(why) if why else "start <= end < len proved", d2
         else:
             return False, "range kind %s not modelled" % name, d2
         ok = True
